@@ -291,6 +291,64 @@ theorem genes_drawn_from_locations (c : Ctx) (genes : List Loc) (hc : regionOK c
   exact ⟨genes_in_range c _ hc hv, genes_exactly_once c _ hc hv,
     fun g hgm gid o ho => order_preserved c _ gid hc (geneView_ok hc (hg g hgm)) o ho⟩
 
+/-! ### the constructors behind the hypotheses -/
+
+/-- every well-formed location is accepted by `CDSCollection.__init__` / `Feature.__init__`:
+    the hypotheses of the theorems above describe constructible objects -/
+theorem wellformed_is_constructible (L : Int) (l : Loc) (h : collOK L l = true) :
+    collectionInit l = .ok := by
+  rcases collOK_cases h with ⟨p, rfl, h1, h2, h3⟩ | ⟨s, e, rfl, h1, h2, h3⟩
+  · have : ¬ (p.lo > p.hi) := by omega
+    have h0 : ¬ (p.lo < 0) := by omega
+    simp [collectionInit, Loc.parts, Loc.start, Loc.end, this, h0]
+  · have a1 : ¬ (min s 0 > max L e) := by omega
+    have a2 : ¬ (min s 0 < 0) := by omega
+    have a3 : ¬ (e = L) := by omega
+    simp [collectionInit, Loc.parts, Loc.start, Loc.end, Loc.strand, sharedEnds, minList, maxList, a1, a2, a3]
+
+/-- what the constructors establish and what they leave open (one part): an accepted
+    single-part location is well-formed as soon as it is non-empty and ends inside the record —
+    the constructor checks the sign of the start, not emptiness -/
+theorem constructed_simple_wellformed (L : Int) (p : Part) (h : collectionInit (.simple p) = .ok)
+    (hne : p.lo < p.hi) (hin : p.hi ≤ L) : collOK L (.simple p) = true := by
+  have h0 : ¬ (p.lo < 0) := by
+    intro hneg
+    have : ¬ (p.lo > p.hi) := by omega
+    simp [collectionInit, Loc.parts, Loc.start, Loc.end, this, hneg] at h
+  simp only [collOK, Bool.and_eq_true, decide_eq_true_eq]
+  omega
+
+/-- … and two parts: the constructors force the second part to start at 0 and both parts onto
+    the forward strand; non-emptiness, "the first part ends the record" and `e ≤ s` are what the
+    theorems' hypothesis `collOK` adds ("overlapping exons" only compares end coordinates) -/
+theorem constructed_pair_wellformed (L : Int) (p q : Part) (h : collectionInit (.compound [p, q]) = .ok)
+    (hp : p.lo < p.hi) (hq : q.lo < q.hi) (hend : p.hi = L) (hsep : q.hi ≤ p.lo) :
+    collOK L (.compound [p, q]) = true := by
+  obtain ⟨plo, phi, pst⟩ := p
+  obtain ⟨qlo, qhi, qst⟩ := q
+  simp only at hp hq hend hsep
+  have hz : qlo = 0 := by
+    by_cases hz : qlo = 0
+    · exact hz
+    · exfalso; simp [collectionInit, Loc.parts, hz] at h
+  subst hz
+  have hst : qst = pst := by
+    by_cases hne : qst = pst
+    · exact hne
+    · exfalso; simp [collectionInit, Loc.parts, hne] at h
+  subst hst
+  have hf : qst = .fwd := by
+    by_cases hne : qst = .fwd
+    · exact hne
+    exfalso
+    have a1 : ¬ (min plo 0 > max phi qhi) := by omega
+    have a2 : ¬ (min plo 0 < 0) := by omega
+    have a3 : ¬ (qhi = phi) := by omega
+    simp [collectionInit, Loc.parts, Loc.strand, sharedEnds, Loc.start, Loc.end, minList, maxList, a1, a2, a3, hne] at h
+  subst hf hend
+  simp only [collOK, Bool.and_eq_true, decide_eq_true_eq, beq_iff_eq]
+  simp; omega
+
 /-! ### non-vacuity: the hypotheses hold on concrete layouts that reach every branch -/
 
 private def sl (a b : Int) : Loc := .simple ⟨a, b, .fwd⟩
@@ -404,5 +462,14 @@ example : (buildAreaRows exWhole
       ⟨[⟨sl 0 1000, .sub, default, false, "y"⟩], [], [⟨xl 600 1000 600, .proto, xl 600 1000 600, false, "a"⟩]⟩).map
       (·.map fun a => ((a.nstart, a.start, a.end, a.nend), a.group)) =
     some [((0, 0, 1000, 1000), 0), ((600, 600, 1000, 1000), 2), ((0, 0, 600, 600), 2)] := by decide
+
+/-- the constructors accept `[800,1000) + [0,900)` (halves overlapping on 800..900: only equal
+    *ends* count as overlapping exons), which is not well-formed; and refuse what they check -/
+example : collectionInit (xl 800 1000 900) = .ok ∧ collOK 1000 (xl 800 1000 900) = false ∧
+    collectionInit (xl 800 1000 90) = .ok ∧ collOK 1000 (xl 800 1000 90) = true ∧
+    collectionInit (.compound [⟨800, 1000, .fwd⟩, ⟨5, 90, .fwd⟩]) = .valueError ∧
+    collectionInit (.compound [⟨800, 1000, .rev⟩, ⟨0, 90, .rev⟩]) = .valueError ∧
+    collectionInit (.compound [⟨800, 1000, .fwd⟩, ⟨0, 90, .rev⟩]) = .assertion ∧
+    collectionInit (.simple ⟨-1, 5, .fwd⟩) = .valueError := by decide
 
 end ASV.C19
